@@ -27,6 +27,7 @@ def parseIdxs (s : String) : Option (List Index) :=
   tablefile <schema bytes> recs…  → bytes of a single-table dump file
   readrecs <bytes>                → n rec1 rec2 …  | !short
   loadtable <cols> <idxs> rows…   → ok <n> | !dup
+  indexorder <n> <first>          → order in which the indexes are dumped / built
 -/
 def step (l : List String) : String :=
   match l with
@@ -60,6 +61,10 @@ def step (l : List String) : String :=
       | .ok db => s!"ok {(db.tables.map (·.rows.length)).sum}"
       | .dup _ => "!dup"
       | .bad => "!bad"
+    | _, _ => "bad-op"
+  | ["indexorder", n, first] =>
+    match parseNat n, parseNat first with
+    | some n, some f => ",".intercalate ((indexOrder n f).map toString)
     | _, _ => "bad-op"
   | _ => "bad-op"
 
